@@ -185,7 +185,8 @@ type found struct {
 	Detail    string `json:"detail"`
 	Replay    string `json:"replay"`
 	Run       int64  `json:"run"`
-	race      bool
+	race      bool   // found by (and replayable with) the race-detector build
+	isRace    bool   // the violation is a race report
 }
 
 type workerResult struct {
@@ -308,7 +309,7 @@ func replayOnce(bin, prop, file string, trace bool) (code int, stdout, stderr st
 		args = append(args, "-trace")
 	}
 	cmd := exec.Command(bin, args...)
-	cmd.Env = append(os.Environ(), "GORACE=halt_on_error=0")
+	cmd.Env = append(os.Environ(), "GORACE=halt_on_error=0 exitcode=0")
 	var o, e bytes.Buffer
 	cmd.Stdout, cmd.Stderr = &o, &e
 	err := cmd.Run()
@@ -425,10 +426,10 @@ func check(id, tier string) int {
 			dst := filepath.Join(replayDir, "corpus-"+filepath.Base(f))
 			os.WriteFile(dst, b, 0o644)
 			sig := meta.Violation.Signature
-			if meta.Race {
+			if meta.Race && sig == "race" {
 				sig = raceSignature(errOut)
 			}
-			all = append(all, found{Signature: sig, Detail: "corpus schedule reproduced: " + lastLine(out), Replay: dst, race: meta.Race})
+			all = append(all, found{Signature: sig, Detail: "corpus schedule reproduced: " + lastLine(out), Replay: dst, race: meta.Race, isRace: meta.Race && meta.Violation.Signature == "race"})
 		}
 	}
 
@@ -477,7 +478,7 @@ func check(id, tier string) int {
 			hf := filepath.Join(sc.dir, fmt.Sprintf("hashes.%d", i))
 			cmd := exec.Command(j.bin, "-prop", id, "-seed", strconv.FormatInt(seed, 10), "-from", strconv.FormatInt(j.from, 10), "-to", strconv.FormatInt(j.to, 10),
 				"-tier", tier, "-budget", budget.String(), "-out", replayDir, "-hashes", hf)
-			cmd.Env = append(os.Environ(), "GORACE=halt_on_error=0")
+			cmd.Env = append(os.Environ(), "GORACE=halt_on_error=0 exitcode=0")
 			var o, e bytes.Buffer
 			cmd.Stdout, cmd.Stderr = &o, &e
 			done := make(chan error, 1)
@@ -501,6 +502,7 @@ func check(id, tier string) int {
 			}
 			for k := range results[i].Violations {
 				results[i].Violations[k].race = j.race
+				results[i].Violations[k].isRace = j.race && results[i].Violations[k].Signature == "race"
 			}
 		}(i, j)
 	}
@@ -570,7 +572,7 @@ func check(id, tier string) int {
 			fail2("a violation did not reproduce when its replay file %s was run in a fresh process (nondeterminism in the harness): %s %s", v.Replay, out, tail(errOut, 2000))
 		}
 		sig := v.Signature
-		if v.race {
+		if v.isRace {
 			sig = raceSignature(errOut)
 			v.Detail = tail(errOut, 3000)
 			annotateReplay(v.Replay, sig, v.Detail)
